@@ -7,6 +7,7 @@ import (
 	"errors"
 	"fmt"
 	"hash/fnv"
+	"math"
 	"net/http"
 	"regexp"
 	"strconv"
@@ -142,7 +143,7 @@ func Start(response http.ResponseWriter, request *http.Request, createIfNew bool
 				if err != nil {
 					return nil, err
 				}
-			} else if age >= SessionIDExpiry+SessionIDGracePeriod {
+			} else if age >= addDurations(SessionIDExpiry, SessionIDGracePeriod) {
 				// Grace period expired. Remove this session.
 				if err = sessions.Delete(id); err != nil {
 					return nil, fmt.Errorf("Could not delete session with expired ID: %s", err)
@@ -525,7 +526,18 @@ func (s *Session) Expired() bool {
 	defer s.RUnlock()
 	return s.referenceID != "" && time.Since(s.lastAccess) >= SessionIDGracePeriod ||
 		time.Since(s.lastAccess) >= SessionExpiry &&
-			time.Since(s.created) >= SessionIDExpiry+SessionIDGracePeriod
+			time.Since(s.created) >= addDurations(SessionIDExpiry, SessionIDGracePeriod)
+}
+
+// addDurations returns the sum of two non-negative durations, limited to the
+// maximum duration instead of overflowing (e.g. when one of them is
+// math.MaxInt64, meaning "forever").
+func addDurations(a, b time.Duration) time.Duration {
+	sum := a + b
+	if a > 0 && b > 0 && sum < 0 {
+		return math.MaxInt64
+	}
+	return sum
 }
 
 // LastAccess returns the time this session was last accessed.
